@@ -5,7 +5,7 @@ from gen import hard, problems
 
 KINDS = ["pattern", "pattern", "insert", "gcwin", "gcwin", "gcglobal", "cds", "stop", "keep", "keep_idx", "keep_edits",
          "change", "change_idx", "change_obj", "change_min", "sequence", "choice", "terminal", "length", "rare", "cai",
-         "kmers", "hairpin"]
+         "kmers", "hairpin", "regex"]
 
 
 def rand_case(rng, kinds=None, nmin=6, nmax=30):
